@@ -118,6 +118,9 @@ def gen_env(tier, R):
                 ops.append(f"(remf {s(n)})")
         out.append(f"(env _ {qs} (ops {' '.join(ops)}))")
     out += gen_respell(tier, R)
+    # overwriting a function with the same native function but another arity / purity, under respelled names (oracle against a reference map)
+    for i in range(300 if tier == 'quick' else 20000):
+        out.append(f"(fnhist _ {R.getrandbits(48)} {R.choice([3, 6, 12, 40])})")
     return out
 
 
